@@ -565,6 +565,10 @@ class Interp:
                 m = self.prog.lookup_method(o.cls.qn, e.attr) if o.cls else None
                 if m is not None:
                     return ('#bound', m, o)
+                if o.cls is not None and all(b.split('.')[-1] in ('object', 'dict', 'OrderedDict') for b in self.prog.external_bases(o.cls.qn)):
+                    r = Raised('no attribute %s on %s' % (e.attr, o.cls.name))      # the class is fully known: an AttributeError
+                    r.excname = 'AttributeError'
+                    raise r
                 raise Unsupported('attribute %s of %r' % (e.attr, o))
             if isinstance(o, tuple) and o and o[0] == '#sym' and o[1].kind == 'class':
                 # class attribute constant
